@@ -31,9 +31,18 @@ def sh(cmd, timeout=3000):
         return 124, (e.stdout or "") + "TIMEOUT"
 
 
+# MATRIX_REPO=<scratch worktree of /repo's HEAD>: apply the patches there and run the checks with VERIF_REPO pointing at it
+# (several shards of the matrix can then run side by side, one worktree each). Unset: /repo itself, as the brief prescribes.
+REPO = os.environ.get("MATRIX_REPO", "/repo")
+CHECK_ENV = "" if REPO == "/repo" else "VERIF_REPO=%s " % REPO
+
+
 def main():
     ids = sys.argv[1:] or sorted(os.listdir(os.path.join(VERIF, "seeded")))
-    assert not sh("git -C /repo status --porcelain")[1].strip(), "/repo is dirty"
+    if ids and ids[0].startswith("--shard="):
+        k, n = map(int, ids[0][len("--shard="):].split("/"))
+        ids = [s for i, s in enumerate(sorted(os.listdir(os.path.join(VERIF, "seeded")))) if i % n == k]
+    assert not sh("git -C %s status --porcelain" % REPO)[1].strip(), REPO + " is dirty"
     for sid in ids:
         d = os.path.join(VERIF, "seeded", sid)
         mp = os.path.join(d, "meta.json")
@@ -41,7 +50,7 @@ def main():
             continue
         meta = json.load(open(mp))
         checks = [meta["property"]] + EXTRA.get(sid, [])
-        rc, out = sh("git -C /repo apply %s/patch.diff" % d)
+        rc, out = sh("git -C %s apply %s/patch.diff" % (REPO, d))
         if rc != 0:
             print(sid, "PATCH DOES NOT APPLY", out)
             continue
@@ -49,7 +58,7 @@ def main():
         try:
             for c in checks:
                 t0 = time.time()
-                rc, out = sh("cd %s && ./check %s quick" % (VERIF, c))
+                rc, out = sh("cd %s && %s./check %s quick" % (VERIF, CHECK_ENV, c))
                 first = ""
                 for l in out.splitlines():
                     if "failed after" in l or "--- FAIL" in l or "DATA RACE" in l or "VERIF-DEADLOCK" in l or "deadlock" in l:
@@ -58,8 +67,8 @@ def main():
                 results[c] = {"tier": "quick", "exit": rc, "detected": rc == 1, "wall_s": round(time.time() - t0, 1), "first_failure": first}
                 print("%s check %s: exit %d %s" % (sid, c, rc, first[:150]), flush=True)
         finally:
-            sh("git -C /repo checkout -- . && git -C /repo clean -fdq")
-            sh("rm -rf %s/replays/C*" % VERIF)
+            sh("git -C %s checkout -- . && git -C %s clean -fdq" % (REPO, REPO))
+            sh("rm -rf %s/replays/C* %s/.build/replays-alt/C*" % (VERIF, VERIF))
         meta["checks"] = results
         meta["how_run"] = "git -C /repo apply seeded/%s/patch.diff; ./check <ID> quick; git -C /repo checkout -- ." % sid
         meta["detected_by"] = sorted(c for c, r in results.items() if r["detected"])
